@@ -94,6 +94,10 @@ def _num(x):
     if isinstance(x, (float, _np.floating)):
         import fractions
         fr = fractions.Fraction(float(x))
+        # A1 (floats as reals) applies to concrete float intermediates too: 0.3333333333333333 is read as 1/3
+        nice = fr.limit_denominator(10 ** 6)
+        if fr == nice or abs(float(nice) - float(x)) <= 4e-16 * max(1.0, abs(float(x))):
+            fr = nice
         return z3.RealVal(str(fr)), "real"
     if isinstance(x, SBV):
         return x.as_int().z, "int"
@@ -116,10 +120,17 @@ def _wrap(zz, k):
     return SInt(zz) if k == "int" else SReal(zz)
 
 
+_UF = {}
+
+
 def floor_div(za, zb):
     """Python floor division on Int terms (z3 div is Euclidean)."""
     if z3.is_int_value(zb) and zb.as_long() > 0:
         return za / zb
+    if eng().nl_mode == "uf":
+        if "floordiv_int" not in _UF:
+            _UF["floordiv_int"] = z3.Function("floordiv_int", z3.IntSort(), z3.IntSort(), z3.IntSort())
+        return _UF["floordiv_int"](za, zb)
     # zb > 0: Euclidean quotient == floor.  zb < 0: floor(a/b) == floor((-a)/(-b)) with -b > 0.
     return z3.If(zb > 0, za / zb, (-za) / (-zb))
 
@@ -127,6 +138,10 @@ def floor_div(za, zb):
 def py_mod(za, zb):
     if z3.is_int_value(zb) and zb.as_long() > 0:
         return za % zb
+    if eng().nl_mode == "uf":
+        if "mod_int" not in _UF:
+            _UF["mod_int"] = z3.Function("mod_int", z3.IntSort(), z3.IntSort(), z3.IntSort())
+        return _UF["mod_int"](za, zb)
     return za - zb * floor_div(za, zb)
 
 
@@ -274,8 +289,12 @@ class _Num:
     def __bool__(self):
         return eng().decide(self.z != 0)
 
-
-_UF = {}
+    def reshape(self, *shape):
+        # numpy scalars have .reshape; a reduction over an object array hands back the bare element
+        import numpy as _np
+        a = _np.empty((1,), dtype=object)
+        a[0] = self
+        return a.reshape(*shape)
 
 
 def _is_const(t):
